@@ -888,18 +888,27 @@ package uhppote
 
 // ---- C11: discovery -------------------------------------------------------------------------------
 // driver.Broadcast: one request handed to the driver (kind 4 = discovery broadcast); the replies collected
-// within the timeout are recorded in recv (their number only); a driver failure is counted in sent.fail
+// within the timeout are recorded in recv, in arrival order (recv.len / recv.bytes: the datagrams as returned;
+// known: what the driver returns is memory that exists); a driver failure is counted in sent.fail
 //@ func driver.Broadcast
 //@   params addr, request
 //@   returns (res, err)
 //@   requires req: len(request) == 64 && addr != nil
-//@   modifies sent.n, sent.kind, sent.iplen, sent.ipb, sent.port, sent.bytes, recv.n, sent.fail
+//@   modifies sent.n, sent.kind, sent.iplen, sent.ipb, sent.port, sent.bytes, recv.n, recv.len, recv.bytes, sent.fail
 //@   define N0 = old(sent.n)
+//@   define R0 = old(recv.n)
+//@   ensures log:    err == nil ==> (forall p int :: R0 <= p && p < R0 + len(res) ==> recv.len[p] == len(res[p - R0]) && recv.bytes[p] == row(res[p - R0]))
+//@   ensures known:  err == nil ==> (forall j int :: 0 <= j && j < len(res) ==> allocated(res[j]))
 //@   ensures sent:   sent.n == N0 + 1 && sent.kind[N0] == 4 && sent.port[N0] == addr.Port && sent.iplen[N0] == len(addr.IP)
 //@   ensures dest:   forall k int :: 0 <= k && k < len(addr.IP) ==> sent.ipb[N0][k] == addr.IP[k]
 //@   ensures bytes:  forall k int :: 0 <= k && k < 64 ==> sent.bytes[N0][k] == old(request[k])
 //@   ensures ok:     err == nil ==> recv.n == old(recv.n) + len(res) && sent.fail == old(sent.fail)
 //@   ensures fail:   err != nil ==> res == nil && recv.n == old(recv.n) && sent.fail == old(sent.fail) + 1
+
+// what one discovery entry says about the datagram it was decoded from (serial number, firmware version, date);
+// discAt(k): the k-th get-device reply among the datagrams of this call, in arrival order
+//@ macro discEnt(m, b) = m.SerialNumber == wire.u32(b, 4) && m.Version == 256 * b[26] + b[27] && wire.rdate(b, 28, m.Date.abs, m.Date.ns, m.Date.loc)
+//@ macro discAt(k) = recv.bytes[old(recv.n) + disc.sel(recv.bytes, recv.len, old(recv.n), k)]
 
 // broadcast: executed in place in GetDevices (generic over `any`); its filter loop keeps only decodable
 // 64-byte replies, in order, and never fails because of a bad one
@@ -910,6 +919,10 @@ package uhppote
 //@   loop 1
 //@     invariant idx:   -1 <= rangeindex && rangeindex < len(responses) || (rangeindex == -1 && len(responses) == 0)
 //@     invariant count: len(replies) <= rangeindex + 1
+//@     invariant exact: len(replies) == disc.count(recv.bytes, recv.len, old(recv.n), rangeindex + 1)
+//@     invariant known: forall j int :: 0 <= j && j < len(responses) ==> allocated(responses[j])
+//@     invariant log:   forall p int :: old(recv.n) <= p && p < old(recv.n) + len(responses) ==> recv.len[p] == len(responses[p - old(recv.n)]) && recv.bytes[p] == row(responses[p - old(recv.n)])
+//@     invariant ent:   forall k int :: 0 <= k && k < len(replies) ==> discEnt(unbox("messages.GetDeviceResponse", replies[k]), discAt(k))
 //@     invariant kind:  forall k int :: 0 <= k && k < len(replies) ==> dyntype(replies[k]) == dyntype(reply)
 //@     invariant own:   fresh(replies)
 
@@ -917,7 +930,7 @@ package uhppote
 //@   params u
 //@   returns (res, err)
 //@   requires client: u != nil && u.driver != nil
-//@   modifies sent.n, sent.kind, sent.iplen, sent.ipb, sent.port, sent.bytes, recv.n, sent.fail
+//@   modifies sent.n, sent.kind, sent.iplen, sent.ipb, sent.port, sent.bytes, recv.n, recv.len, recv.bytes, sent.fail
 //@   attr noaxioms = time.
 //@   attr opaque = bcd.
 //@   define N0 = old(sent.n)
@@ -929,12 +942,17 @@ package uhppote
 //@   ensures total:   sent.fail == old(sent.fail) ==> err == nil
 //@   ensures failed:  sent.fail != old(sent.fail) ==> err != nil && res == nil
 //@   ensures count:   err == nil ==> len(res) <= recv.n - old(recv.n)
+//@   ensures exact:   err == nil ==> len(res) == disc.count(recv.bytes, recv.len, old(recv.n), recv.n - old(recv.n))
+//@   ensures entries: err == nil ==> (forall k int :: 0 <= k && k < len(res) ==> discEnt(res[k], discAt(k)))
 //@   define P = (u.broadcastAddr.AddrPort.ip.kind != 0 ? u.broadcastAddr.AddrPort.port : 60000)
 //@   ensures ports:   err == nil ==> (forall k int :: 0 <= k && k < len(res) ==> (res[k].Address.ip.kind == 0 || res[k].Address.port == P))
 //@   ensures names:   err == nil ==> (forall k int :: 0 <= k && k < len(res) ==> res[k].Name == (has(u.devices, res[k].SerialNumber) ? u.devices[res[k].SerialNumber].Name : ""))
 //@   loop 1
 //@     invariant idx:   -1 <= rangeindex && rangeindex < len(replies) || (rangeindex == -1 && len(replies) == 0)
 //@     invariant count: len(controllers) == rangeindex + 1
+//@     invariant exact: len(replies) == disc.count(recv.bytes, recv.len, old(recv.n), recv.n - old(recv.n))
+//@     invariant ent:   forall k int :: 0 <= k && k < len(replies) ==> discEnt(unbox("messages.GetDeviceResponse", replies[k]), discAt(k))
+//@     invariant mapped: forall k int :: 0 <= k && k < len(controllers) ==> discEnt(controllers[k], discAt(k))
 //@     invariant own:   fresh(controllers)
 //@     invariant kind:  forall k int :: 0 <= k && k < len(replies) ==> dyntype(replies[k]) == typeid("messages.GetDeviceResponse")
 //@     invariant ports: forall k int :: 0 <= k && k < len(controllers) ==> (controllers[k].Address.ip.kind == 0 || controllers[k].Address.port == P)
